@@ -97,7 +97,11 @@ func (z *Int) SetBytes(buf []byte) *Int { panic(0) }
 func (z *Int) Cmp(y *Int) int { panic(0) }
 func (z *Int) Sign() int { panic(0) }
 func (z *Int) Add(x, y *Int) *Int { panic(0) }
-func (z *Int) Mod(x, y *Int) *Int { panic(0) }`,
+func (z *Int) Mod(x, y *Int) *Int { panic(0) }
+func (z *Int) Mul(x, y *Int) *Int { panic(0) }
+func (z *Int) DivMod(x, y, m *Int) (*Int, *Int) { panic(0) }
+func (z *Int) SetInt64(x int64) *Int { panic(0) }
+func (x *Int) Int64() int64 { panic(0) }`,
 	"sort": `package sort
 type Interface interface { Len() int; Less(i, j int) bool; Swap(i, j int) }
 func Sort(data Interface) { panic(0) }
